@@ -14,3 +14,8 @@ open Verif.Props.C01
 #print axioms stmts_sound_block
 #print axioms stmts_sound_partial
 #print axioms stmts_sound_counterexample
+#print axioms print_derives
+#print axioms print_target
+#print axioms assoc_land
+#print axioms assoc_lor
+#print axioms assoc_nullish
